@@ -144,3 +144,21 @@ seed('S-c14c', 'C14', 'lexgen_util backtrack(): __done = true when the failed ma
 seed('S-c15c', 'C15', 'lexgen_util: process-wide direct-mapped display-width cache in a static array of atomics, slot = c % 64, tag = c >> 8',
      'two characters of one 256-block that are 64/128/192 apart and have different widths, an eviction between them, and a schedule in which one lexer runs ahead of its clone', [], ['C15'],
      'NOT DETECTED: the check ends INCONCLUSIVE (exit 2, no verdict), because the executor has no model for static arrays of atomics indexed by a symbolic value and for bit operations on integer-encoded symbolic values; it does not pass. Also the behavioural clone comparison steps clone and original alternately, while this change needs one of them to run ahead. Stated as outside the reach of the present machinery (DESIGN.md section 3, C15)')
+# ---- round 7
+seed('S-c01d', 'C01', 'nfa_to_dfa.rs: for a literal character covered by a range the targets of `_` are dropped (match on the first covering range, `_` only when no range covers it)',
+     'one state in which the same character has its own transition, is covered by a range of another rule and can be consumed by `_` of a third rule, followed by input only the `_` rule continues', ['C01'], [], 'random rewind-biased and single-rule-set definitions (2 roles)')
+seed('S-c02d', 'C02', 'regex_to_nfa.rs regex_to_range_map: bracket sets sorted and merged with `last.end = end` (same mistake as S-c11b, found independently)',
+     'a bracket set under `#` with an element nested inside an earlier range', ['C02', 'C11'], [], '')
+seed('S-c04d', 'C04', 'dfa.rs is_accepting_state: a state counts as accepting only if one of its accepts has no right context (so successors of context-only accepting states are not marked backtrack)',
+     're > ctx matched with the context satisfied, then a longer candidate of another rule fails in a non-accepting state: InvalidToken instead of the token', ['C04'], [], '3 roles')
+seed('S-c05d', 'C05', 'codegen.rs generate_state: at end of input in an accepting, non-backtrack, non-entry state the action is run directly instead of through backtrack() (which clears __done)',
+     'input ending right after a token that is a proper prefix of another token, with a `$` rule or a non-Init rule set', ['C05'], [], 'done flag compared after every call; 4 roles')
+seed('S-c08d', 'C08', 'codegen.rs generate_rhs_code: reset_accepting_state() before a direct-accept action removed (fifth occurrence of the stale-saved-match mechanism, this time asked for C08)',
+     'a lexeme whose longer rule is finished by a direct accept and then fails inline, followed by a failure through backtrack() with no fresh saved match', ['C08', 'C09'], [],
+     'C09 reports the surviving saved match; C08 first attributed it to C09 only. A saved match that survives a call returning an error is now also a `recover` disagreement (C08: "with an empty current match ... the tokens that follow are those of the reference")')
+seed('S-c11d', 'C11', 'ast.rs parse_regex_3: `#` parsed right-associatively (a # b # c = a # (b # c))',
+     'two or more `#` in a row without parentheses', ['C11', 'C02'], [],
+     'first run missed it: the printer of generated definitions parenthesised nested differences, so the parser\'s associativity was never exercised. Chains are now printed without parentheses on the left (documented left associativity is what the reference implements)')
+seed('S-c18c', 'C18', 'char_range_gen: the scan is split into two loops over the blocks below and above the surrogates, an open range is closed at the end of each block',
+     'a predicate true on both U+D7FF and U+E000: two adjacent ranges instead of one (not maximal)', ['C18'], [],
+     'first run inconclusive: the cut-point harness knew one loop. It now handles every context in which the scan loop is entered with a fresh iterator (found by running on from the exit of the previous one; the outer array loop is unrolled), takes the iterator local from the loop head, and havocs exactly the user variables some path of one iteration changes. A correct version of the same restructuring verifies (exit 0)')
